@@ -23,7 +23,7 @@ from ..leanio import driver
 from . import dbcommon as C
 
 ID = "C07"
-LEAN_MODULES = ["SqliteDissect.Properties.C07"]
+LEAN_MODULES = ["SqliteDissect.Properties.C07", "SqliteDissect.Properties.C02Schema", "SqliteDissect.Properties.C01Schema"]
 RULE = ("CREATE TABLE statements from a grammar generator (every identifier quoting style, the style's own quote character "
         "doubled inside names, tabs/newlines/comments - those that start with /*/ included - in "
         "every gap, type names with arguments, column and table constraints, DEFAULT/CHECK expressions with commas, "
